@@ -24,7 +24,7 @@ def pairs(chain):
 def generate(repo):
     out = header(TARGET, SOURCES)
     ok, why = True, ''
-    v = dict(escapeChain=[], helpChain=[], exemplarChain=[], munge=[], trailing=[], helpChainTrailing=[])
+    v = dict(escapeChain=[], helpChain=[], exemplarChain=[], munge=[], trailing=[], helpChainTrailing=[], exemplarNameEscaped=False)
     try:
         text = parse(repo, SOURCES[0])
         om = parse(repo, SOURCES[1])
@@ -44,6 +44,19 @@ def generate(repo):
                 if b == 'v' and len(c) >= 2:
                     ex = c if ex is None or len(c) > len(ex) else ex
         if ex is None: raise Fail('exemplar value replace chain not found')
+        # how the exemplar label NAME is written: raw `k` or `escape_label_name(k)`
+        exname = None
+        for n in ast.walk(g):
+            if (isinstance(n, ast.Call) and isinstance(n.func, ast.Attribute) and n.func.attr == 'format'
+                    and isinstance(n.func.value, ast.Constant) and n.func.value.value == '{}="{}"' and len(n.args) == 2):
+                b1, c1 = replace_chain(n.args[1])
+                if b1 == 'v' and c1:
+                    a0 = ast.unparse(n.args[0])
+                    if a0 == 'k': exname = False
+                    elif a0 == 'escape_label_name(k)': exname = True
+                    else: raise Fail('exemplar label name written as %s' % a0)
+        if exname is None: raise Fail('exemplar label item format not found')
+        v['exemplarNameEscaped'] = exname
         if any(len(a) != 1 for a, _ in ex): raise Fail('exemplar chain replaces multi-character strings')
         v['exemplarChain'] = ex
         # text generate_latest: help chains (family line and trailing-gauge line), munging if-chain, suffix list
@@ -96,6 +109,8 @@ def generate(repo):
     out += 'def escapeChain : List (Char × List Char) := %s\n' % pairs(v['escapeChain'])
     out += '/-- exemplar label values in the OpenMetrics exposition -/\n'
     out += 'def exemplarChain : List (Char × List Char) := %s\n' % pairs(v['exemplarChain'])
+    out += '/-- is the exemplar label name passed through `escape_label_name` (true) or written raw (false) -/\n'
+    out += 'def exemplarNameEscaped : Bool := %s\n' % ('true' if v['exemplarNameEscaped'] else 'false')
     out += '/-- HELP text in the text exposition (family line / trailing-gauge line) -/\n'
     out += 'def helpChain : List (Char × List Char) := %s\n' % pairs(v['helpChain'])
     out += 'def helpChainTrailing : List (Char × List Char) := %s\n' % pairs(v['helpChainTrailing'])
